@@ -152,12 +152,6 @@ Definition quantize (im : img) (k : N) (dither : bool) : outcome (list rgb * lis
 
 (* ---------- specification side ---------- *)
 
-Fixpoint nodup_rgb (l : list rgb) : list rgb :=
-  match l with
-  | [] => []
-  | c :: r => if existsb (rgb_eqb c) r then nodup_rgb r else c :: nodup_rgb r
-  end.
-
 Definition distinct_colors (im : img) : N := N.of_nat (length (nodup_rgb (img_pixels im))).
 
 Definition rect (im : img) : bool :=
